@@ -318,7 +318,7 @@ FACTORS = [
     ("eval", ["vec", "scalar", "blobs", "poolobj_blobs"]),
     ("boundary", ["none", "per0", "ref1", "per0ref1"]),
     ("prior", ["affine", "nonlinear"]),
-    ("target", ["gauss", "bimodal", "unequal"]),
+    ("target", ["gauss", "bimodal", "unequal", "sharp"]),
     ("cluster_every", [1, 3]),
     ("n_steps", [None, 3]),
     ("n_particles", [24, 12]),
